@@ -186,6 +186,24 @@ package server
 //@   requires s.Chord != nil
 //@   ensures at-most-one-write: s.Chord.kvWrites == old(s.Chord.kvWrites) || s.Chord.kvWrites == old(s.Chord.kvWrites) + 1
 
+// Both twirp services (tunnel control and keyless TLS) are built with exactly one option: server hooks whose
+// RequestRouted hook is this server's verifyClientIdentity. twirp.WithServerHooks REPLACES the hooks of an earlier
+// option, so a second hooks option would silently drop the verification.
+//@ func (s *Server) attachRPC(ctx context.Context, router *transport.StreamRouter)
+//@   safety off
+//@   opt frame=off
+//@   requires router != nil
+//@   ghost lastOpt twirp.ServerOption
+//@   ghost lastGuarded bool = false
+//@   ghost built int = 0
+//@   at call WithServerHooks#*: ghost lastGuarded := callarg0 != nil && isfunc(callarg0.RequestRouted, "verifyClientIdentity", s)
+//@   at after call WithServerHooks#*: ghost lastOpt := callresult
+//@   at call NewTunnelServiceServer#*: assert the-tunnel-service-runs-behind-the-identity-check-as-its-only-hooks: len(callarg1) == 1 && callarg1[0] == any(lastOpt) && lastGuarded
+//@   at call NewTunnelServiceServer#*: ghost built := built + 1
+//@   at call NewKeylessServiceServer#*: assert the-keyless-service-runs-behind-the-identity-check-as-its-only-hooks: len(callarg1) == 1 && callarg1[0] == any(lastOpt) && lastGuarded
+//@   at call NewKeylessServiceServer#*: ghost built := built + 1
+//@   ensures local-both-services-were-built: built == 2
+
 //@ func (s *Server) verifyClientIdentity(ctx context.Context) (rctx context.Context, rerr error)
 //@   safety off
 //@   opt frame=off
